@@ -58,8 +58,9 @@ ASSUMPTIONS = [
     'stored as the value itself (all three are upstream-tested conventions)',
     'SELF / Key() replace the root only with a container value',
     'in_place=True set() / __setitem__ are the mutating variants and are not checked',
-    'failing operations (outside the domain above) are only required not to mutate any '
-    'original; whether they raise is not judged',
+    'operations outside the domain above are only required not to mutate any original; '
+    'whether they raise is not judged, but one that is accepted must read back the value '
+    'under the path it was given',
     'dict key order, container identity off the path and the iteration order are not '
     'judged; only leaf identity, container type, keys and lengths are',
 ]
@@ -727,17 +728,37 @@ class Run:
       p, c = rng.choice(lists)
       cands.append(p + (('i', len(c) + rng.randint(1, 2)),))
       cands.append(p + (('k', 'strkey'),))
+      cands.append(p + (('i', len(c) + rng.randint(1, 3)), ('k', 'n1')))
+    seqs = [(p, c) for p, c in m.containers(data) if type(c) in (list, tuple) and p]
+    if seqs:
+      p, c = rng.choice(seqs)
+      cands.append(p + (('i', len(c) + rng.randint(1, 2)),))
+      cands.append(p + (('i', -1 - rng.randint(0, len(c) + 1)),))
     for steps in cands:
       v = g.value()
       originals.add('value of failing set', v)
       self.descs.append(f'(failing) copy_and_set({lib_key(steps)!r}, {m.short(v)})')
       try:
-        view.copy_and_set(lib_key(steps), v)
+        new_view = view.copy_and_set(lib_key(steps), v)
       except Exception:  # pylint: disable=broad-exception-caught
-        pass
+        new_view = None
       self.ctx.count('error_nonmutation_checks')
       if not self.check_originals(originals, 'failing_set'):
         return False
+      if new_view is not None:
+        # Not rejected: then the first law still binds - the path reads the value.
+        self.ctx.count('accepted_outside_domain_reads')
+        try:
+          got = new_view[lib_key(steps)]
+          ok = got is v
+        except Exception as e:  # pylint: disable=broad-exception-caught
+          got, ok = f'{type(e).__name__}: {e}'[:200], False
+        if not ok:
+          self.violation('get_after_set', {'path': list(steps), 'got': m.short(got),
+                                           'want': m.short(v),
+                                           'result': m.short(new_view.data, 300)},
+                         'get_after_set:outside_domain_set_accepted')
+          return False
     return True
 
   def allpaths(self, g, data, originals):
